@@ -1,8 +1,8 @@
-\* replay generation + contract invariants on the repaired merge (FocusUses, histories up to 4 contributors)
+\* replay generation: one instance type definition under two plain names (FocusShared, histories up to 3), code as it is
 SPECIFICATION Spec
 CONSTANTS
-  MaxContrib = 4
-  Focus <- FocusUses
+  MaxContrib = 3
+  Focus <- FocusShared
   DEV_NestedSupertype = FALSE
   DEV_OwnerImportTwice = FALSE
   DEV_OwnerNaming = TRUE
